@@ -29,6 +29,7 @@ def dispatch (line : String) : String :=
   | some (.atom "c14legal" :: args) => Driver.C14.handleLegal args
   | some (.atom "c15" :: args) => Driver.C15.handle args
   | some (.atom "c16" :: args) => Driver.C16.handle args
+  | some (.atom "scanname" :: args) => Driver.C16.handleScan args
   | some (.atom "c17slice" :: args) => Driver.C17.handleSlice args
   | some (.atom "c17report" :: args) => Driver.C17.handleReport args
   | some (.atom "c17ctx" :: args) => Driver.C17.handleCtx args
